@@ -4,8 +4,8 @@
    Script store:  `src` is the script (content version, mtime), `entry` its cache file
    ([kind, from, mtime]: kind "ok" | "xver" | "pyver" (foreign header) | "trunc" | "garbage" |
    "none").  `clock` is the logical time (mtimes are set explicitly in the replay).
-   Code store (`-c` text and scripts on stdin): `centry[t]` for each of two code texts: which
-   (mode, ctx) the cached code object was compiled under, or none.  ctx = whether the first word
+   Code store (`-c` text and scripts on stdin): `centry[t][mode]` for each code text and
+   compilation mode: under which binding context the cached code object was compiled, or none.  ctx = whether the first word
    of the text was a bound name when it was compiled (the Python-vs-command decision is baked into
    the bytecode).
    A run is observed by which content version ran / under which (mode, ctx) meaning. *)
@@ -73,36 +73,35 @@ RunScript ==
 RunCode(t, mode, ctx) ==
   /\ act' = Lab("runcode", t, mode, ctx)
   /\ UNCHANGED <<src, entry, clock, sw, contract>>
-  /\ LET e == centry[t]
+  /\ LET e == centry[t][mode]
          hit == UseCodeCache(mode) /\ e.kind = "ok"
-         same == hit /\ e.mode = mode /\ e.ctx = ctx
-     IN \/ \* uncached meaning; a usable entry compiled under the same (mode, ctx) may be reused
+         other == CHOOSE m \in Modes : m # mode
+     IN \/ \* uncached meaning; an entry compiled for the same mode and context may be reused
            /\ res' = [NoRes EXCEPT !.mode = mode, !.ctx = ctx]
-           /\ centry' = IF UseCodeCache(mode) THEN [centry EXCEPT ![t] = [kind |-> "ok", mode |-> mode, ctx |-> ctx]] ELSE centry
-        \/ \* the key is the digest of the text only: a code object compiled for another mode ...
-           /\ "Dev_KeyIgnoresMode" \in Deviations /\ hit /\ e.mode # mode /\ e.ctx = ctx
-           /\ res' = [NoRes EXCEPT !.mode = e.mode, !.ctx = ctx, !.dev = "Dev_KeyIgnoresMode"]
+           /\ centry' = IF UseCodeCache(mode) THEN [centry EXCEPT ![t][mode] = [kind |-> "ok", mode |-> mode, ctx |-> ctx]] ELSE centry
+        \/ \* the key is the digest of the text only: a code object compiled for the other mode is reused
+           /\ "Dev_KeyIgnoresMode" \in Deviations /\ UseCodeCache(mode) /\ centry[t][other].kind = "ok" /\ centry[t][other].ctx = ctx
+           /\ res' = [NoRes EXCEPT !.mode = other, !.ctx = ctx, !.dev = "Dev_KeyIgnoresMode"]
            /\ centry' = centry
-        \/ \* ... or under another binding context is reused
-           /\ "Dev_CacheIgnoresContext" \in Deviations /\ hit /\ e.ctx # ctx
+        \/ \* the binding context is not part of the key
            \* (Python bytecode run where the names are no longer bound dies with NameError)
-           /\ res' = [NoRes EXCEPT !.mode = e.mode, !.ctx = e.ctx, !.fatal = (e.ctx /\ ~ctx),
-                                   !.dev = IF e.mode = mode THEN "Dev_CacheIgnoresContext" ELSE "Dev_KeyIgnoresMode+Context"]
+           /\ "Dev_CacheIgnoresContext" \in Deviations /\ hit /\ e.ctx # ctx
+           /\ res' = [NoRes EXCEPT !.mode = mode, !.ctx = e.ctx, !.fatal = (e.ctx /\ ~ctx), !.dev = "Dev_CacheIgnoresContext"]
            /\ centry' = centry
-DamageCode(t, k) == /\ centry[t].kind = "ok" /\ k \in {"xver", "trunc"}
-                    /\ centry' = [centry EXCEPT ![t].kind = k]
-                    /\ act' = Lab("damagecode", t, k, 0) /\ res' = NoRes
-                    /\ UNCHANGED <<src, entry, clock, sw, contract>>
+DamageCode(t, m, k) == /\ centry[t][m].kind = "ok" /\ k \in {"xver", "trunc"}
+                       /\ centry' = [centry EXCEPT ![t][m].kind = k]
+                       /\ act' = Lab("damagecode", t, k, m) /\ res' = NoRes
+                       /\ UNCHANGED <<src, entry, clock, sw, contract>>
 
 Init == /\ src = [content |-> 1, mtime |-> 0] /\ entry = NoEntry /\ clock = 0
-        /\ sw \in Switches /\ centry = [t \in Texts |-> NoCode] /\ contract = TRUE
+        /\ sw \in Switches /\ centry = [t \in Texts |-> [m \in Modes |-> NoCode]] /\ contract = TRUE
         /\ act = Lab("init", 0, 0, 0) /\ res = NoRes
 
 Next == \/ Tick \/ Edit \/ EditOlder \/ Touch \/ RunScript
         \/ \E k \in {"xver", "pyver", "trunc", "garbage"} : Damage(k)
         \/ \E s \in Switches : SetSwitches(s)
         \/ \E t \in Texts, m \in Modes, c \in BOOLEAN : RunCode(t, m, c)
-        \/ \E t \in Texts, k \in {"xver", "trunc"} : DamageCode(t, k)
+        \/ \E t \in Texts, m \in Modes, k \in {"xver", "trunc"} : DamageCode(t, m, k)
 
 Spec == Init /\ [][Next]_vars
 
